@@ -68,3 +68,10 @@ Definition u8_next_index (a : list Z) (i v : Z) : result (option Z) :=
   let s := i + 1 in
   let lo := if s <? 0 then Z.max 0 (s + zlen a) else s in
   Ok (u8_next_from 0 a lo v).
+
+(* any(f(x) for x in l): stops at the first true *)
+Fixpoint any_m {B} (f : B -> result bool) (l : list B) : result bool :=
+  match l with
+  | [] => Ok false
+  | x :: l' => do b <- f x; if b then Ok true else any_m f l'
+  end.
